@@ -101,6 +101,12 @@ def expected_reject(case):
         mod = next(m for m in ff["mods"] if m["name"] == name)
         block = next((b for b in ff["blocks"] if b["name"] == node[2]), None)
         have = {a["atomname"] for a in block["atoms"]} if block else set()
+        for link in ff["links"]:
+            # a link that renames an atom of every residue of this name
+            if link["kind"] == "rename" and node[2] in link["resnames"]:
+                for ref, replace, _ in link["atoms"]:
+                    if "atomname" in replace and ref in have:
+                        have = (have - {ref}) | {replace["atomname"]}
         if any(a not in have for i in mod["ixns"] for a in i["atoms"]):
             return True
     return False
@@ -199,17 +205,18 @@ def requests_of(case, out):
     applied_ops = [op for op in out.get("linkops") or [] if op["op"] != "leak"]
     run = dict(op="run", ff=mff, graph=graph, linkops=applied_ops, genexcl=genexcl, mods=mods)
     spec = dict(op="spec", ff=mff, nodes=graph["nodes"], obs=out.get("map"))
-    keys, attrs, removed = [], [], []
+    keys, attrs, removed, renames = [], [], [], []
     for op in applied_ops:
         if op["op"] == "insert":
             sect, atoms, params, meta = op["ixn"]
             keys.append([sect, atoms, dict(meta).get("version", "1")])
         elif op["op"] == "replace":
             attrs += [[op["node"], k] for k, _ in op["attrs"]]
+            renames += [[op["node"], v] for k, v in op["attrs"] if k == "atomname"]
         else:
             removed.append(op["node"])
     frame = dict(op="frame", ff=mff, nodes=graph["nodes"], obs=out.get("final") or dict(atoms=[], ixns=[]),
-                 keys=keys, attrs=attrs, removed=removed, genexcl=genexcl, mods=mods)
+                 keys=keys, attrs=attrs, removed=removed, renames=renames, genexcl=genexcl, mods=mods)
     return [run, spec, frame]
 
 
